@@ -258,12 +258,49 @@ def run(tier):
             nu = 1.0
         if rng.random() < 0.2:
             purity = 1.0
+        if i % 5 == 1:
+            purity = rng.choice([0.992, 0.9991, 0.995, 1 - 1e-6])      # just below one (closed form of p2 where a series would be tempting)
+        if i % 5 == 3:
+            indist = rng.choice([1e-9, 1 - 1e-9, 0.0, 1.0])
         e = ev_source(CIRCS[cname], ins, nu, purity, indist)
         name = "cont%d_%s" % (i, cname)
         chk.count(key=name + repr((nu, purity, indist)))
         compare_real(chk, name, CIRCS[cname], ins, nu, purity, indist, None, e)
+    # ONE long-lived Source (and Sampler) on which one setting at a time is changed: every read must equal the evaluator's value for
+    # the CURRENT settings (a fresh Source per case cannot see settings that are remembered from the previous call)
+    import lightworks as lw
+    from lightworks import emulator as emu
+    for cname, ins in (("hom2", (1, 1)), ("lossy3", (1, 0, 1))):
+        cur = {"brightness": 0.8, "purity": 0.9, "indistinguishability": 0.7}
+        src = emu.Source(**cur)
+        sam = emu.Sampler(build_real(CIRCS[cname]), lw.State(list(ins)), source=src)
+        steps = [("purity", 0.95), ("purity", 1.0), ("indistinguishability", 0.2), ("brightness", 0.6), ("purity", 0.8), ("indistinguishability", 0.2001),
+                 ("brightness", 1.0), ("purity", 0.97)]
+        hist = []
+        for k, (attr, v) in enumerate([(None, None)] + steps):
+            if attr:
+                setattr(src, attr, v)
+                cur[attr] = v
+                hist.append((attr, v))
+            e = ev_source(CIRCS[cname], ins, cur["brightness"], cur["purity"], cur["indistinguishability"])
+            chk.count(key="reuse/%s/%d" % (cname, k))
+            stats = src._build_statistics(lw.State(list(ins)))
+            fresh = emu.Source(**cur)._build_statistics(lw.State(list(ins)))
+            ka = sorted((repr(s), round(p, 12)) for s, p in stats.items())
+            kb = sorted((repr(s), round(p, 12)) for s, p in fresh.items())
+            script = {"module": "LwSource (evaluator)", "circuit": cname, "input": list(ins), "history": [("init", 0.8, 0.9, 0.7)] + hist}
+            if ka != kb:
+                chk.violation("input_statistics", "long-lived Source after %s: input statistics differ from those of a fresh Source with the same settings" % (hist[-3:],),
+                              script, {"call": "Source/reuse"})
+                break
+            got = {tuple(s.s): p for s, p in sam.probability_distribution.items()}
+            if any(abs(got.get(o, 0.0) - e.get(o, 0.0)) > 1e-8 for o in set(got) | set(e)):
+                chk.violation("output_distribution", "long-lived Sampler/Source after %s: distribution differs from the mixture for the current settings" % (hist[-3:],),
+                              script, {"call": "Source/reuse"})
+                break
     chk.traces_validated = chk.evaluations
     chk.add_phase("continuous source parameters through the evaluator", configurations=ncont, evaluator_calibration_max_err=calib)
+    chk.add_phase("one long-lived Source and Sampler, one setting changed at a time", circuits=2, steps=9)
     chk.rule = ("cases = (circuit, intended input, brightness, purity, indistinguishability); for the rational grid TLC enumerates every emission pattern "
                 "of LwSource with exact weights and exact per-pattern output distributions (mode-wise convolution of the groups' boson-sampling "
                 "distributions) and the harness sums them; compared with Source._build_statistics (as multisets of photon groups) and with the "
